@@ -230,5 +230,6 @@ Inv_C13_Any == (r.def /\ ValidChain(h)) =>
     \A x \in ImplAny(r) : x # "PANIC" /\ (x # "" => Look(x) \in Den(h, V))
 
 \* ---------------------------------------------------------------- case generation: print every chain
-GenPrint == Len(h) = 0 \/ PrintT(<<"BEH", ToJson(h)>>)
+\* (the initial state prints the value universe, so the replay uses the spec's own universe and integer readings)
+GenPrint == IF Len(h) = 0 THEN PrintT(<<"UNI", ToJson(V)>>) ELSE PrintT(<<"BEH", ToJson(h)>>)
 =============================================================================
